@@ -608,6 +608,8 @@ inductive Eff where
   | delMPLS (ni : String) (e : Option LabelEntryC)
   | delNHG (ni : String) (e : Option NHGEntryC)
   | delNH (ni : String) (e : Option NHEntryC)
+  /-- `msgCh <- m` in `GetRIB`: the message is handed to the Get RPC -/
+  | getEmit (m : Option GetResponseG)
   /-- `niR.locklessDeleteIPv4(key)` … called by `Flush` (`kind` = 4, 6, 1 MPLS, 2 group, 3 next-hop) -/
   | flDelStr (kind : Nat) (ni : String) (key : String)
   | flDelNat (kind : Nat) (ni : String) (key : Nat)
